@@ -226,6 +226,8 @@ pub enum Rep {
     U,
     One,
     L(u64),
+    /// one replica per host
+    Host,
 }
 
 impl Display for Rep {
@@ -234,6 +236,7 @@ impl Display for Rep {
             Rep::U => write!(f, "u"),
             Rep::One => write!(f, "one"),
             Rep::L(k) => write!(f, "{k}"),
+            Rep::Host => write!(f, "host"),
         }
     }
 }
@@ -243,6 +246,7 @@ impl Rep {
         match s {
             "u" => Some(Rep::U),
             "one" => Some(Rep::One),
+            "host" => Some(Rep::Host),
             _ => s.parse().ok().filter(|k| *k > 0).map(Rep::L),
         }
     }
@@ -251,6 +255,7 @@ impl Rep {
             Rep::U => Replication::Unlimited,
             Rep::One => Replication::One,
             Rep::L(k) => Replication::new_limited(k),
+            Rep::Host => Replication::new_host(),
         }
     }
 }
@@ -269,6 +274,18 @@ pub enum BStage {
     /// `map(Int proj).reduce(agg.glob)`
     Reduce(Agg),
     Replay(Box<LoopSpec>),
+    /// `group_by(key).window(CountWindow::sliding(n, s)).fold(count).unkey()`: depends only on the
+    /// per-key element counts, hence deployment independent even after a parallel shuffle
+    GbWin(KeyFn, i64, usize, usize),
+    /// `group_by_fold(key, agg).unkey()`
+    GbFold(KeyFn, i64, Agg),
+    /// inner hash join with the loop's side input (a stream from outside the loop, replayed every
+    /// round): `join(side, k1, k2).drop_key()` -> `(l, r)`
+    JoinSide(KeyFn, i64, KeyFn, i64),
+    /// `merge(side)`
+    MergeSide,
+    /// nested `iterate`: the items of its last round followed by its final state
+    Iterate(Box<LoopSpec>),
 }
 
 #[derive(Clone, Debug, PartialEq)]
@@ -315,8 +332,9 @@ pub enum Kind {
     Join(Ref, Ref, JVar, Ship, Local, KeyFn, i64, KeyFn, i64),
     KJoin(Ref, Ref, JVar),
     Route(Ref, Vec<(PredFn, i64)>),
-    Replay(Ref, LoopSpec),
-    Iterate(Ref, LoopSpec),
+    /// input, optional side input (used by `joinside` / `mergeside` body stages), loop
+    Replay(Ref, Option<Ref>, LoopSpec),
+    Iterate(Ref, Option<Ref>, LoopSpec),
     Sink(Ref),
 }
 
@@ -340,7 +358,8 @@ impl Kind {
             | Bcast(a, _) | GroupBy(a, ..) | KeyBy(a, ..) | KMap(a, ..) | KFilter(a, ..) | KFold(a, _)
             | KReduce(a, _) | Unkey(a) | DropKey(a) | Fold(a, _) | FoldA(a, _) | Reduce(a, _)
             | ReduceA(a, _) | GbFold(a, ..) | GbReduce(a, ..) | GbSum(a, ..) | GbCount(a, ..)
-            | KWin(a, ..) | Route(a, _) | Replay(a, _) | Iterate(a, _) | Sink(a) => vec![*a],
+            | KWin(a, ..) | Route(a, _) | Sink(a) => vec![*a],
+            Replay(a, sd, _) | Iterate(a, sd, _) => std::iter::once(*a).chain(sd.iter().copied()).collect(),
             Merge(a, b) | Zip(a, b) | Join(a, b, ..) | KJoin(a, b, _) => vec![*a, *b],
         }
     }
@@ -386,6 +405,14 @@ fn loop_words(l: &LoopSpec, w: &mut Vec<String>) {
                 w.push("replay".into());
                 loop_words(l2, w);
             }
+            BStage::Iterate(l2) => {
+                w.push("iterate".into());
+                loop_words(l2, w);
+            }
+            BStage::GbWin(f, k, n, sl) => w.extend(["gbwin".to_string(), f.to_string(), k.to_string(), n.to_string(), sl.to_string()]),
+            BStage::GbFold(f, k, g) => w.extend(["gbfold".to_string(), f.to_string(), k.to_string(), g.to_string()]),
+            BStage::JoinSide(f1, k1, f2, k2) => w.extend(["joinside".to_string(), f1.to_string(), k1.to_string(), f2.to_string(), k2.to_string()]),
+            BStage::MergeSide => w.push("mergeside".into()),
         }
     }
 }
@@ -410,12 +437,18 @@ impl<'a> Toks<'a> {
     fn rf(&mut self) -> Option<Ref> {
         Ref::parse(self.next()?)
     }
+    /// an optional `@ref` token
+    fn opt_rf(&mut self) -> Option<Ref> {
+        let r = Ref::parse(self.w.get(self.i)?)?;
+        self.i += 1;
+        Some(r)
+    }
     fn done(&self) -> bool {
         self.i == self.w.len()
     }
 }
 
-fn parse_loop(t: &mut Toks, depth: usize) -> Option<LoopSpec> {
+fn parse_loop(t: &mut Toks, depth: usize, has_side: bool) -> Option<LoopSpec> {
     if depth > 4 {
         return None;
     }
@@ -437,7 +470,20 @@ fn parse_loop(t: &mut Toks, depth: usize) -> Option<LoopSpec> {
             "addst" => BStage::AddSt(t.int()?),
             "gbsum" => BStage::GbSum(KeyFn::parse(t.next()?)?, t.int()?),
             "reduce" => BStage::Reduce(Agg::parse(t.next()?)?),
-            "replay" => BStage::Replay(Box::new(parse_loop(t, depth + 1)?)),
+            "replay" => BStage::Replay(Box::new(parse_loop(t, depth + 1, has_side)?)),
+            "iterate" => BStage::Iterate(Box::new(parse_loop(t, depth + 1, has_side)?)),
+            "gbwin" => {
+                let (f, k, n, sl) = (KeyFn::parse(t.next()?)?, t.int()?, t.usize()?, t.usize()?);
+                if n == 0 || sl == 0 {
+                    return None;
+                }
+                BStage::GbWin(f, k, n, sl)
+            }
+            "gbfold" => BStage::GbFold(KeyFn::parse(t.next()?)?, t.int()?, Agg::parse(t.next()?)?),
+            "joinside" if has_side => {
+                BStage::JoinSide(KeyFn::parse(t.next()?)?, t.int()?, KeyFn::parse(t.next()?)?, t.int()?)
+            }
+            "mergeside" if has_side => BStage::MergeSide,
             _ => return None,
         };
         body.push(s);
@@ -488,12 +534,18 @@ impl Node {
                     w.push(format!("{f}:{k}"));
                 }
             }
-            Replay(a, l) => {
+            Replay(a, sd, l) => {
                 p!("replay", a);
+                if let Some(b) = sd {
+                    p!(b);
+                }
                 loop_words(l, &mut w);
             }
-            Iterate(a, l) => {
+            Iterate(a, sd, l) => {
                 p!("iterate", a);
+                if let Some(b) = sd {
+                    p!(b);
+                }
                 loop_words(l, &mut w);
             }
             Sink(a) => p!("sink", a),
@@ -568,8 +620,16 @@ impl Node {
                 }
                 Route(a, ps)
             }
-            "replay" => Replay(t.rf()?, parse_loop(&mut t, 0)?),
-            "iterate" => Iterate(t.rf()?, parse_loop(&mut t, 0)?),
+            "replay" => {
+                let a = t.rf()?;
+                let sd = t.opt_rf();
+                Replay(a, sd, parse_loop(&mut t, 0, sd.is_some())?)
+            }
+            "iterate" => {
+                let a = t.rf()?;
+                let sd = t.opt_rf();
+                Iterate(a, sd, parse_loop(&mut t, 0, sd.is_some())?)
+            }
             "sink" => Sink(t.rf()?),
             _ => return None,
         };
@@ -629,6 +689,7 @@ impl Kind {
             KJoin(..) => vec![Some(true), Some(true)],
             Sink(_) => vec![None],
             Merge(..) | Zip(..) | Join(..) => vec![Some(false), Some(false)],
+            Replay(_, Some(_), _) | Iterate(_, Some(_), _) => vec![Some(false), Some(false)],
             _ => vec![Some(false)],
         }
     }
@@ -752,7 +813,18 @@ fn pair(a: Val, b: Val) -> Val {
     Val::Tup(vec![a, b])
 }
 
-fn build_body(mut s: P, body: &[BStage], state: IterationStateHandle<i64>) -> P {
+/// number of uses of the side input in a body (nested loops included)
+pub fn side_uses(body: &[BStage]) -> usize {
+    body.iter()
+        .map(|s| match s {
+            BStage::JoinSide(..) | BStage::MergeSide => 1,
+            BStage::Replay(l) | BStage::Iterate(l) => side_uses(&l.body),
+            _ => 0,
+        })
+        .sum()
+}
+
+fn build_body(mut s: P, body: &[BStage], state: IterationStateHandle<i64>, mut sides: Vec<P>) -> P {
     for st in body {
         s = match st.clone() {
             BStage::Map(f, k) => erase(s.map(move |v| f.eval(k, &v))),
@@ -772,20 +844,63 @@ fn build_body(mut s: P, body: &[BStage], state: IterationStateHandle<i64>) -> P 
                 s.map(|v| int_of(&v))
                     .reduce(move |a, b| Val::Int(g.glob(proj(&a), proj(&b)))),
             ),
-            BStage::Replay(l) => build_replay(s, &l),
+            BStage::GbWin(f, k, n, sl) => erase(
+                s.group_by(move |v: &Val| f.eval(k, v))
+                    .window(CountWindow::sliding(n, sl))
+                    .fold(0i64, |acc: &mut i64, _v: Val| *acc += 1)
+                    .unkey()
+                    .map(|(k, c)| pair(k, Val::Int(c))),
+            ),
+            BStage::GbFold(f, k, g) => erase(
+                s.group_by_fold(
+                    move |v: &Val| f.eval(k, v),
+                    0i64,
+                    move |acc, v: Val| *acc = g.loc(*acc, proj(&v)),
+                    move |acc, p: i64| *acc = g.glob(*acc, p),
+                )
+                .unkey()
+                .map(|(k, c)| pair(k, Val::Int(c))),
+            ),
+            BStage::JoinSide(f1, k1, f2, k2) => {
+                let sd = sides.pop().unwrap_or_else(|| panic!("badcase: no side input"));
+                erase(
+                    s.join(sd, move |v: &Val| f1.eval(k1, v), move |v: &Val| f2.eval(k2, v))
+                        .drop_key()
+                        .map(|(l, r)| pair(l, r)),
+                )
+            }
+            BStage::MergeSide => {
+                let sd = sides.pop().unwrap_or_else(|| panic!("badcase: no side input"));
+                erase(s.merge(sd))
+            }
+            BStage::Replay(l) => {
+                let c = side_uses(&l.body);
+                let mine = sides.split_off(sides.len() - c.min(sides.len()));
+                build_replay(s, &l, mine)
+            }
+            BStage::Iterate(l) => {
+                let c = side_uses(&l.body);
+                let mine = sides.split_off(sides.len() - c.min(sides.len()));
+                let (st, out) = build_iterate(s, &l, mine);
+                // the items output of a nested `iterate` leaves ALL enclosing loops (iterate.rs creates its
+                // output block with an empty iteration context), so only the state stream can continue
+                // the outer body; the items are drained
+                out.for_each(|_| {});
+                erase(st.shuffle())
+            }
         };
     }
     s
 }
 
-fn build_replay(s: P, l: &LoopSpec) -> P {
+fn build_replay(s: P, l: &LoopSpec, sides: Vec<P>) -> P {
     let body = l.body.clone();
     let agg = l.agg;
     let (cf, ck) = l.cond;
     let out = s.replay(
         l.iters,
         l.init,
-        move |s, state| build_body(erase(s), &body, state),
+        move |s, state| build_body(erase(s), &body, state, sides),
         move |d: &mut i64, x: Val| *d = agg.loc(*d, proj(&x)),
         move |st: &mut i64, d: i64| *st = agg.glob(*st, d),
         move |st: &mut i64| cf.eval(ck, &Val::Int(*st)),
@@ -793,19 +908,33 @@ fn build_replay(s: P, l: &LoopSpec) -> P {
     erase(out.map(Val::Int))
 }
 
-fn build_iterate(s: P, l: &LoopSpec) -> (P, P) {
+fn build_iterate(s: P, l: &LoopSpec, sides: Vec<P>) -> (P, P) {
     let body = l.body.clone();
     let agg = l.agg;
     let (cf, ck) = l.cond;
     let (st, out) = s.iterate(
         l.iters,
         l.init,
-        move |s, state| build_body(erase(s), &body, state),
+        move |s, state| build_body(erase(s), &body, state, sides),
         move |d: &mut i64, x: Val| *d = agg.loc(*d, proj(&x)),
         move |st: &mut i64, d: i64| *st = agg.glob(*st, d),
         move |st: &mut i64| cf.eval(ck, &Val::Int(*st)),
     );
     (erase(st.map(Val::Int)), erase(out))
+}
+
+/// the copies of the side stream a loop needs (one per use; drained if unused)
+fn side_copies(side: Option<P>, l: &LoopSpec) -> Vec<P> {
+    let c = side_uses(&l.body);
+    match (side, c) {
+        (None, _) => vec![],
+        (Some(sd), 0) => {
+            sd.for_each(|_| {});
+            vec![]
+        }
+        (Some(sd), 1) => vec![sd],
+        (Some(sd), c) => sd.split(c).into_iter().map(erase).collect(),
+    }
 }
 
 fn build_join(a: P, b: P, v: JVar, ship: Ship, local: Local, k1: (KeyFn, i64), k2: (KeyFn, i64)) -> SVal {
@@ -1085,9 +1214,15 @@ pub fn build_job(job: &Job, ctx: &StreamContext, batch: Batch) -> Vec<(usize, St
                 }
                 continue;
             }
-            Replay(a, l) => SVal::P(build_replay(b.p(a), &l)),
-            Iterate(a, l) => {
-                let (st, out) = build_iterate(b.p(a), &l);
+            Replay(a, sd, l) => {
+                let side = sd.map(|r| b.p(r));
+                let sides = side_copies(side, &l);
+                SVal::P(build_replay(b.p(a), &l, sides))
+            }
+            Iterate(a, sd, l) => {
+                let side = sd.map(|r| b.p(r));
+                let sides = side_copies(side, &l);
+                let (st, out) = build_iterate(b.p(a), &l, sides);
                 b.publish(Ref { id: n.id, port: 0 }, SVal::P(st));
                 b.publish(Ref { id: n.id, port: 1 }, SVal::P(out));
                 continue;
@@ -1128,14 +1263,14 @@ pub struct GenOpts {
     pub loops: bool,
     pub windows: bool,
     pub max_steps: usize,
-    /// also generate `replication(Limited(k))` over forward links (the shape of finding F4); off by
-    /// default, `NVH_E2E_LIMFWD=1` turns it on in the `e2e` binary
+    /// also generate `replication(Limited(k) | Host)` over forward links from an unlimited block (the
+    /// shape of finding F4, fixed in /repo 3deb123); on by default
     pub limited_forward: bool,
 }
 
 impl Default for GenOpts {
     fn default() -> Self {
-        GenOpts { loops: true, windows: true, max_steps: 9, limited_forward: false }
+        GenOpts { loops: true, windows: true, max_steps: 9, limited_forward: true }
     }
 }
 
@@ -1188,14 +1323,17 @@ fn gen_agg(rng: &mut Rng) -> Agg {
     *rng.pick(Agg::ALL)
 }
 
-fn gen_loop(rng: &mut Rng, depth: usize, iterate: bool, size: usize) -> LoopSpec {
-    let n = rng.range(1, 3) as usize;
+/// A random loop. `iterate`: the body output is fed back (no `reduce` at the end: the feedback link
+/// is a forward connection into the unlimited loop block). `side`: size of the side input, if any.
+fn gen_loop(rng: &mut Rng, depth: usize, iterate: bool, size: usize, side: Option<usize>) -> LoopSpec {
+    let n = rng.range(1, 4) as usize;
     let mut body = vec![];
     let mut unlimited = true;
-    let mut size = size;
+    let mut size = size.max(1);
+    let mut side_used = false;
     for i in 0..n {
         let last = i + 1 == n;
-        let st = match rng.below(12) {
+        let st = match rng.below(22) {
             0..=2 => {
                 let f = *rng.pick(&[MapFn::Add, MapFn::Mul, MapFn::Mod, MapFn::Neg, MapFn::Id]);
                 BStage::Map(f, gen_k(rng))
@@ -1222,12 +1360,49 @@ fn gen_loop(rng: &mut Rng, depth: usize, iterate: bool, size: usize) -> LoopSpec
                 BStage::FlatMap(FlatFn::Dup, 0)
             }
             11 if depth == 0 && unlimited => {
+                let l = gen_loop(rng, depth + 1, false, size, None);
                 size = 1;
-                BStage::Replay(Box::new(gen_loop(rng, depth + 1, false, size)))
+                BStage::Replay(Box::new(l))
+            }
+            12 if depth == 0 && unlimited => {
+                let l = gen_loop(rng, depth + 1, true, size, None);
+                size += 1;
+                BStage::Iterate(Box::new(l))
+            }
+            13..=15 => {
+                // keyed count windows: per-key counts that are / are not multiples of the size
+                unlimited = true;
+                let w = rng.range(1, 4) as usize;
+                let sl = match rng.below(3) {
+                    0 => w,
+                    1 => 1,
+                    _ => rng.range(1, w as i64) as usize,
+                };
+                let (f, k) = *rng.pick(&[(KeyFn::Kmod, 1), (KeyFn::Kmod, 2), (KeyFn::Kmod, 3), (KeyFn::Kconst, 0), (KeyFn::Kself, 0)]);
+                BStage::GbWin(f, k, w, sl)
+            }
+            16 | 17 => {
+                unlimited = true;
+                BStage::GbFold(KeyFn::Kmod, gen_k(rng), *rng.pick(&[Agg::Sum, Agg::Cnt, Agg::Max, Agg::Summod]))
+            }
+            18 | 19 if side.is_some() && !iterate && size * side.unwrap() <= 600 && !side_used => {
+                unlimited = true;
+                side_used = true;
+                size = size * side.unwrap() + 1;
+                let (f, k) = (KeyFn::Kmod, gen_k(rng));
+                BStage::JoinSide(f, k, f, k)
+            }
+            20 | 21 if side.is_some() && unlimited && !side_used => {
+                side_used = true;
+                size += side.unwrap();
+                BStage::MergeSide
             }
             _ => BStage::Map(MapFn::Add, 1),
         };
         body.push(st);
+    }
+    if side.is_some() && !side_used && unlimited {
+        body.push(BStage::MergeSide);
     }
     LoopSpec {
         iters: rng.range(1, 3) as usize,
@@ -1324,6 +1499,21 @@ impl Gen {
         self.outs.len() - 1
     }
 
+    /// a small plain stream from outside the loop to serve as its side input (made unlimited)
+    fn pick_side(&mut self, rng: &mut Rng, not: usize) -> Option<(Ref, usize)> {
+        if !rng.chance(1, 2) {
+            return None;
+        }
+        let c: Vec<usize> = (0..self.outs.len())
+            .filter(|&j| j != not && !self.outs[j].1.keyed && self.outs[j].1.size <= 10)
+            .collect();
+        if c.is_empty() {
+            return None;
+        }
+        let j = self.unlimited(*rng.pick(&c));
+        Some((self.outs[j].0, self.outs[j].1.size))
+    }
+
     fn unary(&mut self, rng: &mut Rng) {
         let Some(i) = self.pick(rng, |_| true) else { return };
         let (r, inf) = self.outs[i];
@@ -1345,14 +1535,16 @@ impl Gen {
                 7 if inf.part => {
                     self.add(Kind::KReduce(r, gen_agg(rng)), vec![Info { ordered: false, ..inf }]);
                 }
-                8 | 9 if inf.part && inf.ordered && self.opts.windows => {
+                8 | 9 if inf.part && self.opts.windows => {
                     let n = rng.range(1, 5) as usize;
                     let s = match rng.below(3) {
                         0 => n,
                         1 => 1,
-                        _ => rng.range(1, n as i64 + 1) as usize,
+                        _ => rng.range(1, n as i64) as usize, // 1 <= slide <= size (C12's quantifier)
                     };
-                    self.add(Kind::KWin(r, n, s, gen_agg(rng)), vec![Info { ordered: false, ..inf }]);
+                    // an order-sensitive aggregate only on single-producer paths; `cnt` anywhere
+                    let g = if inf.ordered && rng.chance(1, 2) { gen_agg(rng) } else { Agg::Cnt };
+                    self.add(Kind::KWin(r, n, s, g), vec![Info { ordered: false, ..inf }]);
                 }
                 10 => {
                     self.add(Kind::DropKey(r), vec![Info { keyed: false, part: false, ..inf }]);
@@ -1391,11 +1583,11 @@ impl Gen {
             15 => {
                 let ordered = inf.ordered && inf.rep == Rep::One;
                 // Limited(k) over a forward link only from an unlimited block (F8: never from fewer replicas)
-                let rep = if self.opts.limited_forward && inf.rep == Rep::U { *rng.pick(&[Rep::One, Rep::L(2), Rep::L(3)]) } else { Rep::One };
+                let rep = if self.opts.limited_forward && inf.rep == Rep::U { *rng.pick(&[Rep::One, Rep::L(2), Rep::L(3), Rep::Host]) } else { Rep::One };
                 self.add(Kind::Repl(r, rep), vec![Info { rep, ordered, ..inf }]);
             }
             16 => {
-                let rep = *rng.pick(&[Rep::U, Rep::One, Rep::L(2), Rep::L(3)]);
+                let rep = *rng.pick(&[Rep::U, Rep::One, Rep::L(2), Rep::L(3), Rep::Host]);
                 let (f, k) = gen_key(rng);
                 self.add(Kind::Repart(r, rep, f, k), vec![Info { rep, ordered: false, ..inf }]);
             }
@@ -1446,17 +1638,19 @@ impl Gen {
                 self.add(Kind::Route(r, ps), infos);
             }
             33..=35 if self.opts.loops && inf.size <= 400 => {
+                let side = self.pick_side(rng, i);
                 let i = self.unlimited(i);
                 let (r, inf) = self.outs[i];
-                let l = gen_loop(rng, 0, false, inf.size);
-                self.add(Kind::Replay(r, l), vec![Info { rep: Rep::U, ordered: true, size: 1, ..inf }]);
+                let l = gen_loop(rng, 0, false, inf.size, side.map(|s| s.1));
+                self.add(Kind::Replay(r, side.map(|s| s.0), l), vec![Info { rep: Rep::U, ordered: true, size: 1, ..inf }]);
             }
             36 | 37 if self.opts.loops && inf.size <= 400 => {
+                let side = self.pick_side(rng, i);
                 let i = self.unlimited(i);
                 let (r, inf) = self.outs[i];
-                let l = gen_loop(rng, 0, true, inf.size);
+                let l = gen_loop(rng, 0, true, inf.size, side.map(|s| s.1));
                 self.add(
-                    Kind::Iterate(r, l),
+                    Kind::Iterate(r, side.map(|s| s.0), l),
                     vec![
                         Info { rep: Rep::U, ordered: true, size: 1, ..inf },
                         Info { rep: Rep::U, ordered: false, size: inf.size.max(8), ..inf },
@@ -1475,7 +1669,7 @@ impl Gen {
         let (a, b) = (self.outs[i].1, self.outs[j].1);
         match rng.below(10) {
             // keyed join of co-partitioned keyed streams
-            0..=2 if a.keyed && b.keyed && a.part && b.part && a.rep == b.rep && a.rep != Rep::L(2) && a.rep != Rep::L(3) => {
+            0..=2 if a.keyed && b.keyed && a.part && b.part && a.rep == b.rep && matches!(a.rep, Rep::U | Rep::One) => {
                 let v = *rng.pick(&[JVar::Inner, JVar::Outer]);
                 if a.size * b.size <= 4 * SIZE_CAP {
                     let size = a.size * b.size + a.size + b.size;
@@ -1545,7 +1739,7 @@ pub fn gen_job(rng: &mut Rng, opts: GenOpts) -> Job {
 }
 
 /// The two explicit witnesses of finding F4 (forward link into a block with fewer, but more than one,
-/// replicas). Run them on >= 4 cores.
+/// replicas; fixed in /repo 3deb123), plus a `Host` variant. Run them on >= 4 cores / >= 2 hosts.
 pub fn f4_jobs() -> Vec<Job> {
     let r = Ref::new;
     vec![
@@ -1564,6 +1758,14 @@ pub fn f4_jobs() -> Vec<Job> {
                 Node { id: 3, kind: Kind::Repl(r(2), Rep::L(2)) },
                 Node { id: 4, kind: Kind::Fold(r(3), Agg::Cnt) },
                 Node { id: 5, kind: Kind::Sink(r(4)) },
+            ],
+        },
+        Job {
+            nodes: vec![
+                Node { id: 0, kind: Kind::Par(0, 60) },
+                Node { id: 1, kind: Kind::Repl(r(0), Rep::Host) },
+                Node { id: 2, kind: Kind::Map(r(1), MapFn::Add, 1) },
+                Node { id: 3, kind: Kind::Sink(r(2)) },
             ],
         },
     ]
@@ -1631,6 +1833,9 @@ pub fn install_panic_log() {
         } else {
             "unknown".into()
         };
+        if std::env::var("NVH_E2E_DEBUG").is_ok() {
+            eprintln!("panic at {:?}: {msg}", info.location().map(|l| format!("{}:{}", l.file(), l.line())));
+        }
         if let Ok(mut l) = PANIC_LOG.lock() {
             l.push(msg);
         }
@@ -1645,9 +1850,12 @@ fn panic_log_len() -> usize {
     PANIC_LOG.lock().map(|l| l.len()).unwrap_or(0)
 }
 
+/// Only an address clash at START-UP is an infrastructure error (another process holds the
+/// loopback address/port). A connect failure after the retry budget, a disconnected channel or any
+/// other panic during the run is an outcome of the engine and is reported as `panic:<class>`.
 fn is_infra(m: &str) -> bool {
     let m = m.to_lowercase();
-    m.contains("failed to bind") || m.contains("failed to connect") || m.contains("address already in use") || m.contains("addrinuse")
+    m.contains("failed to bind") || m.contains("address already in use") || m.contains("addrinuse")
 }
 
 /// The per-host runtime configurations and the address prefix (remote only).
@@ -1814,7 +2022,12 @@ pub fn outcome_lines(o: &Outcome) -> Vec<String> {
                 None => format!("sink {id} missing"),
             })
             .collect(),
-        Outcome::Panic(m) => vec![format!("panic:{}", classify_panic(m))],
+        Outcome::Panic(m) => {
+            if std::env::var("NVH_E2E_DEBUG").is_ok() {
+                eprintln!("panic message: {m}");
+            }
+            vec![format!("panic:{}", classify_panic(m))]
+        }
         Outcome::Blocked => vec!["blocked".into()],
         Outcome::Infra(_) => vec!["infra".into()],
     }
@@ -1891,14 +2104,20 @@ pub fn gen_config(rng: &mut Rng, class: usize) -> Config {
         0 => Config::Local(*rng.pick(&[1, 2])),
         1 => Config::Local(*rng.pick(&[3, 4, 7])),
         _ => {
-            let h = rng.range(2, 3);
-            Config::Remote((0..h).map(|_| rng.range(1, 3) as u64).collect())
+            // 2-3 hosts, or (1 in 3) a 4-host heterogeneous layout
+            let h = if rng.chance(1, 3) { 4 } else { rng.range(2, 3) };
+            let mut cores: Vec<u64> = (0..h).map(|_| rng.range(1, 3) as u64).collect();
+            if h == 4 {
+                cores[0] = 1;
+                cores[3] = 3;
+            }
+            Config::Remote(cores)
         }
     }
 }
 
 /// `n` cases: every job is run under 3 configurations (small local, larger local, multi-host) with a
-/// random batch mode each; the last two cases are the tagged F4 witnesses.
+/// random batch mode each; the last four cases are the former F4 witnesses (local and 2 hosts).
 pub fn gen_cases(seed: u64, n: usize, opts: GenOpts) -> Vec<(String, Case)> {
     let mut rng = Rng::new(seed);
     let mut out = vec![];
@@ -1911,7 +2130,10 @@ pub fn gen_cases(seed: u64, n: usize, opts: GenOpts) -> Vec<(String, Case)> {
                 break;
             }
             let cfg = gen_config(&mut r, class);
-            let batch = *r.pick(Batch::ALL);
+            let batch = match *r.pick(Batch::ALL) {
+                Batch::Adaptive(..) => Batch::Adaptive(*r.pick(&[1, 2, 8, 100]), *r.pick(&[1, 5, 20])),
+                b => b,
+            };
             let mut c = Case::new(&["e2e", &cfg.to_string(), &batch.to_string()]);
             c.ops = job.to_ops();
             out.push((format!("e2e-{seed}-{j}-{class}"), c));
@@ -1919,11 +2141,13 @@ pub fn gen_cases(seed: u64, n: usize, opts: GenOpts) -> Vec<(String, Case)> {
         j += 1;
     }
     if n >= 12 {
+        // the witnesses of finding F4 (fixed in /repo 3deb123) as ordinary regression cases
         for (i, job) in f4_jobs().into_iter().enumerate() {
-            let mut c = Case::new(&["e2e", "L4", "def"]);
-            c.op(&["tag", "f4"]);
-            c.ops.extend(job.to_ops());
-            out.push((format!("e2e-{seed}-f4-{i}"), c));
+            for cfg in ["L4", "R2:2"] {
+                let mut c = Case::new(&["e2e", cfg, "def"]);
+                c.ops = job.to_ops();
+                out.push((format!("e2e-{seed}-f4-{i}-{cfg}"), c));
+            }
         }
     }
     out
